@@ -14,7 +14,7 @@ class Crate:
 
 class Fn:
     __slots__ = ("crate", "raw", "info", "key", "promoted", "blocks", "_succ", "_pred", "_calls", "_defs",
-                 "_threaded", "nthreaded", "_closures", "_dom", "_fnrefs", "_rf")
+                 "_threaded", "nthreaded", "_closures", "_dom", "_fnrefs", "_rf", "inl_err_locals", "inl_from")
 
     def __init__(self, crate, raw):
         self.crate = crate
@@ -33,6 +33,8 @@ class Fn:
         self._dom = None
         self._fnrefs = None
         self._rf = None
+        self.inl_err_locals = None     # return locals of spliced callees whose result is propagated (engine/inline.py)
+        self.inl_from = None
 
     # --- basic accessors
     @property
@@ -102,6 +104,17 @@ class Fn:
         while changed and rounds < 8:
             changed = False
             rounds += 1
+            # jump-to-jump elimination: `goto E` where E is an empty block ending in `goto T` goes to T directly (exposes the
+            # assigning predecessor of a join to the threading below; semantically neutral)
+            for i, bb in enumerate(blocks):
+                t = bb["t"]
+                hops = 0
+                while t["k"] == "goto" and hops < 8:
+                    e = blocks[t["to"]]
+                    if e["s"] or e["t"]["k"] != "goto" or e["t"]["to"] == t["to"] or t["to"] == i:
+                        break
+                    t["to"] = e["t"]["to"]
+                    hops += 1
             preds = defaultdict(list)
             for i, bb in enumerate(blocks):
                 for t in term_succ(bb["t"]):
@@ -139,6 +152,44 @@ class Fn:
                     target = t["else"]
                     for (av, at) in t["arms"]:
                         if int(av) == val:
+                            target = at
+                    pt["to"] = target
+                    pt["threaded_from"] = m
+                    self.nthreaded += 1
+                    changed = True
+
+            # discriminant-join threading: M = { d = discriminant(x); switch d }, predecessor P ends in `goto M` and its last whole
+            # assignment to x is an Option / Result / ControlFlow aggregate of a known variant: P goes to that arm directly
+            for m, bb in enumerate(blocks):
+                t = bb["t"]
+                if t["k"] != "switch" or len(bb["s"]) != 1:
+                    continue
+                s0 = bb["s"][0]
+                on = t["on"]
+                pl = on.get("c") or on.get("m")
+                if not pl or pl.get("p") or "d" not in s0 or s0["d"].get("p") or s0["d"]["l"] != pl["l"]:
+                    continue
+                v0 = s0["v"]
+                if v0["r"] != "discr" or v0["pl"].get("p"):
+                    continue
+                x = v0["pl"]["l"]
+                for p in list(preds.get(m, [])):
+                    pt = blocks[p]["t"]
+                    if pt["k"] != "goto" or pt["to"] != m or p == m:
+                        continue
+                    vi = None
+                    for s in reversed(blocks[p]["s"]):
+                        if "d" in s and s["d"]["l"] == x:
+                            v = s["v"]
+                            if not s["d"].get("p") and v["r"] == "agg" and v.get("ak") == "adt" and v.get("adt") in (
+                                    "core::option::Option", "core::result::Result", "core::ops::control_flow::ControlFlow") and "vi" in v:
+                                vi = int(v["vi"])
+                            break
+                    if vi is None:
+                        continue
+                    target = t["else"]
+                    for (av, at) in t["arms"]:
+                        if int(av) == vi:
                             target = at
                     pt["to"] = target
                     pt["threaded_from"] = m
